@@ -1,7 +1,9 @@
 import Driver.Drv.Lru
+import Driver.Drv.Store
 namespace Driver
 
 def drivers : List (String × CaseFn) := [
-  ("lru", Driver.Drv.Lru.runCase)]
+  ("lru", Driver.Drv.Lru.runCase),
+  ("store", Driver.Drv.Store.runCase)]
 
 end Driver
